@@ -14,7 +14,7 @@ REL=$(head -3 "$D/demo_test.go" | grep -o 'src/[A-Za-z0-9_/.]*_test\.go' | head 
 PKG=./$(dirname "${REL#src/}")/
 cp "$D/demo_test.go" "$WT/$REL"
 cd "$WT/src"
-RUN='Demo|TestC13|TestZZ'
+RUN='Demo|TestC13|TestZZ|TestRejectNeeds'
 go test $EXTRA -vet=off -count=1 -run "$RUN" $PKG > /tmp/vs/$ID.base.log 2>&1; base=$?
 rm -f "$WT/$REL"
 git -C "$WT" apply "$D/patch.diff" || { echo "$ID: patch does not apply"; exit 9; }
